@@ -255,18 +255,21 @@ impl<T> AtomicBucket<T> {
                 Err(value) => {
                     #[cfg(metrics_verif)]
                     metrics::verif::point("bkt.push.cas_new");
+                    // Link the new block to the current tail _before_ publishing it: once the new
+                    // block is visible as the tail, readers must be able to reach the blocks that
+                    // came before it.
+                    let new_block = Owned::new(Block::new());
+                    new_block.next.store(tail, Ordering::Relaxed);
                     match self.tail.compare_exchange(
                         tail,
-                        Owned::new(Block::new()),
+                        new_block,
                         Ordering::AcqRel,
                         Ordering::Acquire,
                         guard,
                     ) {
-                        // We managed to install the block, so we need to link this new block to
-                        // the nextious block.
+                        // We managed to install the block, already linked to the previous block.
                         Ok(ptr) => {
                             let new_tail = unsafe { ptr.deref() };
-                            new_tail.next.store(tail, Ordering::Release);
 
                             // Now push into our new block.
                             match new_tail.push(value) {
